@@ -1,6 +1,5 @@
 PROP = dict(
     id="C16",
-    disabled=True,
     engines=["c16"],
     go_tags=["c16"],
     lean_modules=["MM.Props.C16"],
